@@ -88,6 +88,8 @@ def handle (op : String) (inp go : Sexp) : Option Reply :=
         | g => (.atom "0", g)
       let v : String := match go with
         | .list [.atom "panic"] => "FAIL decoder panicked"
+        | .list (.atom "stream-differs" :: _) =>
+            "FAIL Read from a reader delivering short chunks decodes differently from Unmarshal on the same bytes"
         | .list (.atom "err" :: _) => "ok"
         | .list [.atom "ok", g, again] =>
             (match decRaw g, nat alloc with
